@@ -732,11 +732,11 @@ func commitRule(c *core.Ctx, rule string, only map[string]bool) {
 		layout string
 		lists  []listWant
 	}{
-		{"PPHashToSign", "K(RAW32(c.NewLocalExitRoot)|K(LIST(makeslice:[][]byte)))", []listWant{
+		{"PPHashToSign", "K(RAW32(c.NewLocalExitRoot)|K(LIST))", []listWant{
 			{ibes, "RAW32((*agglayer/types.GlobalIndex).Hash(" + ibes + idx + ".GlobalIndex))"}}},
-		{"FEPHashToSign", "K(RAW32(c.NewLocalExitRoot)|K(LIST(loop{makeslice:[][]byte}))|LE64(c.Height)|PHI{GLOBAL(agglayer/types.emptyBytesHash)|RAW32(c.AggchainData#0.AggchainParams)})", []listWant{
+		{"FEPHashToSign", "K(RAW32(c.NewLocalExitRoot)|K(LIST)|LE64(c.Height)|PHI{GLOBAL(agglayer/types.emptyBytesHash)|RAW32(c.AggchainData#0.AggchainParams)})", []listWant{
 			{ibes, "BYTES((*agglayer/types.ImportedBridgeExit).GlobalIndexToLittleEndianBytes(" + ibes + idx + "))|RAW32((*agglayer/types.BridgeExit).Hash(" + ibes + idx + ".BridgeExit))"}}},
-		{"Hash", "K(BE32(c.NetworkID)|BE64(c.Height)|RAW32(c.PrevLocalExitRoot)|RAW32(c.NewLocalExitRoot)|K(LIST(makeslice:[][]byte))|K(LIST(makeslice:[][]byte)))", []listWant{
+		{"Hash", "K(BE32(c.NetworkID)|BE64(c.Height)|RAW32(c.PrevLocalExitRoot)|RAW32(c.NewLocalExitRoot)|K(LIST)|K(LIST))", []listWant{
 			{"c.BridgeExits", "RAW32((*agglayer/types.BridgeExit).Hash(c.BridgeExits" + idx + "))"},
 			{ibes, "RAW32((*agglayer/types.ImportedBridgeExit).Hash(" + ibes + idx + "))"}}},
 	} {
